@@ -31,13 +31,13 @@ package yubiattest
 //@ ghost pure func emAt(k int, m int, j int) int =
 //@   j < k - min(bytelen(m), k) ? 0 : i2b(m)[j - (k - min(bytelen(m), k))]
 //@ # EM = 00 01 FF..FF 00 prefix digest, full length k, for the two prefix variants; d/doff: the digest bytes
-//@ ghost pure func wf1(k int, m int, h int, d bytes, doff int) bool =
+//@ ghost func wf1(k int, m int, h int, d bytes, doff int) bool =
 //@   emAt(k, m, 0) == 0 && emAt(k, m, 1) == 1 &&
 //@   emAt(k, m, k - p1len(h) - hsize(h) - 1) == 0 &&
 //@   forall(j, 2 <= j && j < k - p1len(h) - hsize(h) - 1, emAt(k, m, j) == 255) &&
 //@   forall(j, 0 <= j && j < p1len(h), emAt(k, m, k - p1len(h) - hsize(h) + j) == p1at(h, j)) &&
 //@   forall(j, 0 <= j && j < hsize(h), emAt(k, m, k - hsize(h) + j) == d[doff + j])
-//@ ghost pure func wf2(k int, m int, h int, d bytes, doff int) bool =
+//@ ghost func wf2(k int, m int, h int, d bytes, doff int) bool =
 //@   emAt(k, m, 0) == 0 && emAt(k, m, 1) == 1 &&
 //@   emAt(k, m, k - p2len(h) - hsize(h) - 1) == 0 &&
 //@   forall(j, 2 <= j && j < k - p2len(h) - hsize(h) - 1, emAt(k, m, j) == 255) &&
